@@ -25,6 +25,7 @@ def check(prop, tier, seed):
     r = C.exec_and_validate("world", scripts, workdir, "World_Trace.tla", "World_Trace.cfg")
     res = {"suite": "fault", "kind": "fault_enumeration", "params": params, "cache_hit": False,
            "n_scripts": r["n_scripts"], "n_events": r["n_events"], "wall_s": r["wall_s"]}
+    res["rule"] = "each script injects a panic into the k-th library-side destructor call of one destroying operation on a world with 1-3 storages of rotating kinds, continues with further operations and drops the world (35% with a panicking destructor at teardown too); distinct_nontrivial = distinct (storage kind, operation, k) triples injected"
     res["viol"] = W.pack_viol(r["viol"], scripts)
     res["samples"] = W.samples_of(scripts)
     # which (kind, operation, k) combinations were injected, and in how many did the destructor really panic
